@@ -163,7 +163,7 @@ def partitions(tier, seed):
     P = []
     hs = ("h2", "h1", "hdot") if tier == "quick" else ("h2", "h3", "h2b", "h1", "hdot")
     for h in hs:
-        P.append(dict(name="update/%s" % h, harness="h_update", params=dict(history=h, max_f=7 if tier == "quick" else 9),
+        P.append(dict(name="update/%s" % h, harness="h_update", params=dict(history=h, max_f=8 if tier == "quick" else 10),
                       budget=150 if tier == "quick" else 1200,
                       bounds="history %s (%d versions); local in {each version, current, foreign, absent}; index in {sha256, sha1, missing, broken}; fault in {none, patch j corrupted, patch j missing, wrong result hash, f-th write/rename fails}" % (h, len(HISTORIES[h]))))
     return P
